@@ -404,7 +404,13 @@ coap_update_token(coap_pdu_t *pdu, size_t len, const uint8_t *data) {
     return 0;
 
   if (pdu->used_size == 0) {
-    return coap_add_token(pdu, len, data);
+    if (!coap_add_token(pdu, len, data))
+      return 0;
+    if (pdu->e_token_length && pdu->hdr_size && pdu->session)
+      /* Need to fix up the header */
+      if (!coap_pdu_encode_header(pdu, pdu->session->proto))
+        return 0;
+    return 1;
   }
 
   old_len = pdu->e_token_length;
